@@ -108,6 +108,7 @@ type Host struct {
 	wd        [2]*watchdog // simulated interrupting goroutines (only when the engine asks for them)
 	wdPayload [2]*intrPayload
 
+	maxDepth  int // deepest call stack seen at a probe during the current call
 	nestDepth int // native->JS nesting depth right now
 	inJob     bool
 
@@ -169,6 +170,9 @@ func (h *Host) probeFault(site int, reflectStyle bool) error {
 	k := h.probes
 	h.probes++
 	h.totalStep++
+	if d := h.rt.VerifState().CallStack; d > h.maxDepth {
+		h.maxDepth = d
+	}
 	if h.extra != nil {
 		h.extra(h, site)
 	}
